@@ -47,6 +47,17 @@ type ReplaySpec struct {
 	KV      [][2]string
 }
 
+// deadReturn reports whether the contract declares the n-th return statement (source order) unreachable in the code
+// itself: `opt dead-returns=2,5`.
+func (fc *FuncContract) deadReturn(n int) bool {
+	for _, x := range strings.Split(fc.Opts["dead-returns"], ",") {
+		if strings.TrimSpace(x) == fmt.Sprint(n) && n > 0 {
+			return true
+		}
+	}
+	return false
+}
+
 // replayFor picks the replay clause for an obligation with the given properties.
 func (fc *FuncContract) replayFor(props []string) *ReplaySpec {
 	for i := range fc.Replays {
@@ -67,6 +78,43 @@ func (fc *FuncContract) replayFor(props []string) *ReplaySpec {
 type LemmaPat struct {
 	Fn     string
 	Params []string
+	Sub    []*LemmaPat // Sub[j] != nil: argument j is itself an application pattern (matched syntactically)
+}
+
+// parseLemmaPat parses `F(x, G(y, z), _)` at the start of s and returns the pattern and the rest of s.
+func parseLemmaPat(s string) (*LemmaPat, string, bool) {
+	i := 0
+	for i < len(s) && (s[i] == '_' || s[i] == '.' || s[i] >= 'a' && s[i] <= 'z' || s[i] >= 'A' && s[i] <= 'Z' || s[i] >= '0' && s[i] <= '9') {
+		i++
+	}
+	if i == 0 || i >= len(s) || s[i] != '(' {
+		return nil, s, false
+	}
+	p := &LemmaPat{Fn: s[:i]}
+	rest := s[i+1:]
+	for {
+		rest = strings.TrimLeft(rest, " ")
+		if strings.HasPrefix(rest, ")") {
+			return p, rest[1:], true
+		}
+		if sub, r2, ok := parseLemmaPat(rest); ok {
+			p.Params = append(p.Params, "")
+			p.Sub = append(p.Sub, sub)
+			rest = r2
+		} else {
+			j := strings.IndexAny(rest, ",)")
+			if j < 0 {
+				return nil, s, false
+			}
+			p.Params = append(p.Params, strings.TrimSpace(rest[:j]))
+			p.Sub = append(p.Sub, nil)
+			rest = rest[j:]
+		}
+		rest = strings.TrimLeft(rest, " ")
+		if strings.HasPrefix(rest, ",") {
+			rest = rest[1:]
+		}
+	}
 }
 
 type Lemma struct {
@@ -222,18 +270,12 @@ func (cs *Contracts) parseContractFile(file string, repo bool, pkgPath string) e
 			var pats []LemmaPat
 			hdr := rest
 			for {
-				m := lemmaPatRe.FindStringSubmatch(hdr)
-				if m == nil {
+				pt, r2, ok := parseLemmaPat(hdr)
+				if !ok {
 					break
 				}
-				var ps []string
-				for _, x := range strings.Split(m[2], ",") {
-					if x = strings.TrimSpace(x); x != "" {
-						ps = append(ps, x)
-					}
-				}
-				pats = append(pats, LemmaPat{Fn: m[1], Params: ps})
-				hdr = strings.TrimSpace(hdr[len(m[0]):])
+				pats = append(pats, *pt)
+				hdr = strings.TrimSpace(r2)
 				if strings.HasPrefix(hdr, "&") {
 					hdr = strings.TrimSpace(hdr[1:])
 					continue
